@@ -20,7 +20,7 @@
 (* explains all its events; the accepted runs are printed ("ACC", r).      *)
 (* SkipRun lets the search continue after a run that nothing explains.     *)
 (***************************************************************************)
-EXTENDS FoDriver, Json
+EXTENDS FoDriver, Json, TLC
 CONSTANTS TraceFile
 Trace == ndJsonDeserialize(TraceFile)
 NoArgs == <<>>
